@@ -181,12 +181,14 @@ theorem readAuth_origin_preserved (hs : List Str) (f f' : Fields) (h : readAuth 
       · split at h
         · simp at h
         · rename_i hdo
-          have heq : f.origin = (parseAuthorization hd).origin := by
-            simp only [hne, Bool.not_false, Bool.true_and, bne_iff_ne, ne_eq, Decidable.not_not] at hdo
-            exact hdo
-          have := ih _ h (by simp only; rw [← heq]; exact hne)
-          simp only at this
-          rw [this, heq]
+          split at h
+          · simp at h
+          · have heq : f.origin = (parseAuthorization hd).origin := by
+              simp only [hne, Bool.not_false, Bool.true_and, bne_iff_ne, ne_eq, Decidable.not_not] at hdo
+              exact hdo
+            have := ih _ h (by simp only; rw [← heq]; exact hne)
+            simp only at this
+            rw [this, heq]
 
 /-- What a successful pass over the Authorization headers establishes. -/
 theorem readAuth_ok (hs : List Str) (f f' : Fields) (h : readAuth hs f = .ok f') :
@@ -214,6 +216,11 @@ theorem readAuth_ok (hs : List Str) (f f' : Fields) (h : readAuth hs f = .ok f')
         · simp [hdo] at h
         · have hdo' : (!f.origin.isEmpty && f.origin != (parseAuthorization hd).origin) = false := by simpa using hdo
           simp only [hdo', Bool.false_eq_true, ↓reduceIte] at h
+          have hu8 : (Json.utf8Valid (parseAuthorization hd).origin && Json.utf8Valid (parseAuthorization hd).destination) = true := by
+            cases hb : (Json.utf8Valid (parseAuthorization hd).origin && Json.utf8Valid (parseAuthorization hd).destination) with
+            | true => rfl
+            | false => simp [hb] at h
+          simp only [hu8, Bool.not_true, Bool.false_eq_true, ↓reduceIte] at h
           obtain ⟨h1, h2, h3, h4, h5⟩ := ih _ h
           simp only at h1 h2 h3
           have hx : xMatrixAuths (hd :: rest) = parseAuthorization hd :: xMatrixAuths rest := by
@@ -271,6 +278,11 @@ theorem readHTTPRequest_ok (req : HttpReq) (f : Fields) (h : readHTTPRequest req
      | none => f.origin = [] ∧ f.destination = [] ∧ f.signatures = []
      | some a => f.origin = a.origin ∧ f.destination = a.destination) := by
   unfold readHTTPRequest at h
+  have hfu : (Json.utf8Valid req.method && Json.utf8Valid req.requestURI) = true := by
+    cases hb : (Json.utf8Valid req.method && Json.utf8Valid req.requestURI) with
+    | true => rfl
+    | false => simp [hb] at h
+  simp only [hfu, Bool.not_true, Bool.false_eq_true, ↓reduceIte] at h
   by_cases hb : req.body = []
   · have hlen : (req.body.length != 0) = false := by simp [hb]
     simp only [hlen, Bool.false_eq_true, ↓reduceIte] at h
@@ -558,7 +570,8 @@ theorem read_produced (f : Fields) (up : Option Str) (req : HttpReq) (kid sig : 
     (hc : ∀ c, f.content = some c → c ≠ [] ∧ utf8Valid c = true)
     (hcomma : 0x2C ∉ f.origin ∧ 0x2C ∉ kid ∧ 0x2C ∉ sig ∧ 0x2C ∉ f.destination)
     (hsq : 0x22 ∉ sig)
-    (hne : f.origin ≠ [] ∧ kid ≠ [] ∧ sig ≠ []) :
+    (hne : f.origin ≠ [] ∧ kid ≠ [] ∧ sig ≠ [])
+    (hu8 : fieldsUTF8 f = true) :
     readHTTPRequest req = .ok f := by
   obtain ⟨_, _, hso, hsd, hsk, hr⟩ := httpRequest_shape f up req kid sig hreq hsigs
   have hparse := parse_authHeader f.origin kid sig f.destination ⟨hcomma.1, safe_no_quote _ hso⟩
@@ -569,19 +582,21 @@ theorem read_produced (f : Fields) (up : Option Str) (req : HttpReq) (kid sig : 
   subst hr
   rw [hmeth]
   obtain ⟨content, destination, method, origin, uri, signatures⟩ := f
-  simp only at hsigs hm hc hcomma hne hparse ⊢
+  simp only [fieldsUTF8, Bool.and_eq_true] at hu8
+  obtain ⟨⟨⟨hud, hum⟩, huo⟩, huu⟩ := hu8
+  simp only at hsigs hm hc hcomma hne hparse hud hum huo huu ⊢
   subst hsigs
   have ho : origin.isEmpty = false := by simpa using hne.1
   have hk : kid.isEmpty = false := by simpa using hne.2.1
   have hs : sig.isEmpty = false := by simpa using hne.2.2
   cases content with
   | none =>
-    simp [readHTTPRequest, readAuth, hparse, ho, hk, hs, setSig]
+    simp [readHTTPRequest, readAuth, hparse, ho, hk, hs, setSig, hud, hum, huo, huu]
   | some c =>
     obtain ⟨hcne, hcu⟩ := hc c rfl
     have hlen : (c.length != 0) = true := by
       simp only [bne_iff_ne, ne_eq, List.length_eq_zero_iff]; exact hcne
-    simp [readHTTPRequest, readAuth, hparse, ho, hk, hs, setSig, hlen, hcu]
+    simp [readHTTPRequest, readAuth, hparse, ho, hk, hs, setSig, hlen, hcu, hud, hum, huo, huu]
 
 end V.FedReq
 
@@ -622,11 +637,14 @@ theorem sign_shape (f0 f : Fields) (sn kid : Str) (mk : JVal → Str) (h : sign 
     ∃ cv0, contentValue f0.content = some cv0 ∧
       f.signatures = setSig f0.signatures kid (mk (signingObject cv0 f0.destination f0.method sn f0.uri)) ∧
       ((f0.content = none ∨ f0.content = some []) → f.content = none) ∧
-      (∀ raw, f0.content = some raw → raw ≠ [] → ∃ c, canonical raw = .ok c ∧ f.content = some c) := by
+      (∀ raw, f0.content = some raw → raw ≠ [] → ∃ c, canonical raw = .ok c ∧ f.content = some c) ∧
+      contentStrict f0.content = true := by
   unfold sign at h
   split at h
   · simp at h
   · simp only [] at h
+    split at h
+    · simp at h
     split at h
     · simp at h
     · rename_i hmar
@@ -640,11 +658,16 @@ theorem sign_shape (f0 f : Fields) (sn kid : Str) (mk : JVal → Str) (h : sign 
       | none => simp [hcv] at h
       | some cv0 =>
         simp only [hcv] at h
+        have hstrict : contentStrict f0.content = true := by
+          cases hb : contentStrict f0.content with
+          | true => rfl
+          | false => simp [hb] at h
+        simp only [hstrict, Bool.not_true, Bool.false_eq_true, ↓reduceIte] at h
         cases hc : f0.content with
         | none =>
           simp only [hc, Except.ok.injEq] at h
           subst h
-          refine ⟨rfl, rfl, rfl, rfl, hmar', hkidv, cv0, ?_, rfl, fun _ => rfl, ?_⟩
+          refine ⟨rfl, rfl, rfl, rfl, hmar', hkidv, cv0, ?_, rfl, fun _ => rfl, ?_, rfl⟩
           · rfl
           · intro raw hr; cases hr
         | some raw =>
@@ -653,7 +676,7 @@ theorem sign_shape (f0 f : Fields) (sn kid : Str) (mk : JVal → Str) (h : sign 
           · simp only [hre, ↓reduceIte, Except.ok.injEq] at h
             subst h
             have hnil : raw = [] := by simpa using hre
-            refine ⟨rfl, rfl, rfl, rfl, hmar', hkidv, cv0, ?_, rfl, fun _ => rfl, ?_⟩
+            refine ⟨rfl, rfl, rfl, rfl, hmar', hkidv, cv0, ?_, rfl, fun _ => rfl, ?_, hc ▸ hstrict⟩
             · rfl
             · intro r hr hne
               simp only [Option.some.injEq] at hr
@@ -666,7 +689,7 @@ theorem sign_shape (f0 f : Fields) (sn kid : Str) (mk : JVal → Str) (h : sign 
             | ok c =>
               simp only [hcan, Except.ok.injEq] at h
               subst h
-              refine ⟨rfl, rfl, rfl, rfl, hmar', hkidv, cv0, ?_, rfl, ?_, ?_⟩
+              refine ⟨rfl, rfl, rfl, rfl, hmar', hkidv, cv0, ?_, rfl, ?_, ?_, hc ▸ hstrict⟩
               · rfl
               · intro hor
                 rcases hor with h1 | h1
@@ -675,6 +698,17 @@ theorem sign_shape (f0 f : Fields) (sn kid : Str) (mk : JVal → Str) (h : sign 
               · intro r hr _
                 simp only [Option.some.injEq] at hr; subst hr
                 exact ⟨c, hcan, rfl⟩
+
+/-- … and Sign refuses fields that are not valid UTF-8 -/
+theorem sign_fieldsUTF8 (f0 f : Fields) (sn kid : Str) (mk : JVal → Str) (h : sign f0 sn kid mk = .ok f) :
+    fieldsUTF8 { f0 with origin := sn } = true := by
+  unfold sign at h
+  split at h
+  · simp at h
+  · simp only [] at h
+    cases hb : fieldsUTF8 { f0 with origin := sn } with
+    | true => rfl
+    | false => simp [hb] at h
 
 end V.FedReq
 
